@@ -12,6 +12,9 @@ META = {
     "level": "Decides: (R1) soundness by construction: _internal_match yields a package only under match_func(pkg), and itermatch binds match_func from the caller's restriction (match / force_True / force_False); (R2) candidate pruning never applies a category/package restriction with the wrong polarity: negated wrappers are skipped per DNF solution and the fast path does not narrow at all when anything below the top node is negated; (R3) candidate generators yield each category / (category, package) at most once, the one-candidate shortcut is taken only when no other package restriction is pending, and the sorter is applied to instantiated packages (version order), not to raw version strings; (R4) filtered trees filter with the polarity their sentinel selects and agree with __getitem__, multiplexed trees consult every member tree on both the sorted and unsorted path. Does NOT decide completeness of pruning for arbitrary restrictions.",
     "note": "restriction.match is opaque; over-approximating candidates is always allowed because of R1",
 }
+META["technique"] += "; " + 'must-pass rule for cache refresh on add/remove; source agreement of the versioned / unversioned forms'
+META["level"] += " Added after the second round of independent changes: " + '(R5) notify_add_package refreshes the versions and the per-category package cache on every path (unless the guard looks at the package name), notify_remove_package refreshes versions; the unversioned query form asks non-emptiness of the same version list the versioned form iterates.'
+META["technique"] += "; " + 'generic pack G on the anchored files (optional-flag shift, closures outliving a loop iteration, single-pass iterables consumed twice, %-templates built from data, in-place writes to class-level / memoised objects, generators mutating what they yielded, memo keys that are projections)'
 MOD = "pkgcore.repository.prototype"
 
 
